@@ -8,7 +8,7 @@ from .. import cv, gen, lib, ref
 from ..lib import call
 
 PROP = "C12"
-PLAN = {"quick": (2400, 400), "thorough": (240000, 3600)}
+PLAN = {"quick": (2400, 400), "thorough": (120000, 3600)}
 LARGE = (0.02, 24)  # (share, largest size) of the large class of gen.kv: 17+ control points, degree up to 8
 STEP_BUDGET = 20_000_000  # loop line events per outermost call: ten times the default, for the large class
 RULE = ("case = (knot vector with non uniform / repeated knots, optional weights, data points or an in-space function, "
